@@ -445,3 +445,241 @@ def random_trace(rng, nsteps, p_restart=0.03, p_cut=0.06, p_timeout=0.04, p_look
             desc = st
         groups.append((ops, obs_codes(w), desc))
     return w, groups
+
+
+# ---------------------------------------------------------------------------------------------
+# direct oracle on the real Tubs
+import random as _random
+import os as _os, json as _json, glob as _glob
+
+
+def agreement_problem(w):
+    """the property at quiescence: both Tubs' brokers for each other are the two ends of one link, or both absent"""
+    bm, bs = w.live_broker_link("M"), w.live_broker_link("S")
+    for b in (bm, bs):
+        if b and b[0] == "many":
+            return "a Tub holds %d brokers for one peer" % b[1]
+    if (bm is None) != (bs is None):
+        return "one side has a current connection and the other has none: M=%r S=%r" % (bm, bs)
+    if bm is None:
+        return None
+    if bm[0] != bs[0] or bm[1] == bs[1]:
+        return "the two current connections are not the two ends of one link: M on link %r end %r, S on link %r end %r" % (
+            bm[0], bm[1], bs[0], bs[1])
+    if bm[2] or bs[2]:
+        return "a disconnected broker is still registered: M=%r S=%r" % (bm, bs)
+    l = w.net.links[bm[0]]
+    if any(e.closed or e.lost for e in l.ends):
+        return "the shared connection's transport is closed: %r" % ([(e.closed, e.lost) for e in l.ends],)
+    return None
+
+
+def lookups_problem(w, timeout_s):
+    for r in w.results:
+        if r.get("abandoned"):
+            continue
+        if len(r["fired"]) != 1:
+            return "a getReference of %s fired %d times (%r)" % (r["who"], len(r["fired"]), r["fired"])
+        if r["at"][0] - r["t0"] > timeout_s + 1e-6:
+            return "a getReference of %s fired after %.1f s > CONNECTION_TIMEOUT" % (r["who"], r["at"][0] - r["t0"])
+    return None
+
+
+def settle(w, rng, chunk=None):
+    w.run_to_quiescence(rng, chunk)
+
+
+def scenario(kind, seed, p):
+    """one oracle run; returns (signature suffix | None, text, facts)"""
+    rng = _random.Random(seed)
+    T = fconn.TubConnector.CONNECTION_TIMEOUT
+    w = World()
+    facts = dict(kind=kind)
+    chunk = None
+    if p.get("bytes"):
+        chunk = lambda r: r.choice([1, 2, 3, 7, 20, 64, 300])
+    try:
+        if kind == "crossfire":
+            # both dial at once, 1-3 hints each, no faults: must end on ONE shared live connection, both lookups ok
+            for x in NAMES:
+                w.lookup(x, p["hints"][x])
+            settle(w, rng, chunk)
+            bad = agreement_problem(w) or lookups_problem(w, T)
+            if bad:
+                return "agreement" if "getReference" not in bad else "lookup", bad, facts
+            if w.live_broker_link("M") is None:
+                return "no-connection-without-faults", "a fault-free simultaneous connect ended without a connection", facts
+            kinds = sorted(r["fired"][0] for r in w.results)
+            facts["results"] = kinds
+            if "ok" not in kinds:
+                return "no-lookup-succeeded", "fault-free cross-connect: every getReference failed: %r" % kinds, facts
+        elif kind == "faults":
+            # lookups, deliveries, cuts, close notifications and restarts in random order; then everything settles
+            for i in range(p["steps"]):
+                r = rng.random()
+                ps = w.pending_steps()
+                if r < 0.15 or not ps:
+                    w.lookup(rng.choice(NAMES), rng.randint(1, 3))
+                elif r < 0.22 and w.net.links:
+                    w.cut(rng.choice(w.net.links))
+                elif r < 0.25:
+                    w.restart(rng.choice(NAMES))
+                else:
+                    w.do_net_step(rng.choice(ps), rng, chunk)
+            settle(w, rng, chunk)
+            bad = agreement_problem(w)
+            if bad:
+                return "agreement", bad, facts
+            # virtual time: everything still pending must be answered by CONNECTION_TIMEOUT
+            E.clock.advance(T)
+            E.turn()
+            settle(w, rng, chunk)
+            bad = lookups_problem(w, T) or agreement_problem(w)
+            if bad:
+                return ("lookup" if "getReference" in bad else "agreement-after-timeout"), bad, facts
+            facts["results"] = sorted(set(r["fired"][0] for r in w.results if not r.get("abandoned")))
+        elif kind == "redundant":
+            # S (or M) connects with several hints in parallel, after some history: exactly ONE of the parallel
+            # attempts may be accepted -- a later one from the same incarnation must not displace the first
+            x = p["who"]
+            hist = p["history"]
+            if hist != "fresh":
+                w.lookup(x, 1)
+                settle(w, rng)
+                l0 = w.net.links[0]
+                if hist == "both-lost":
+                    w.cut(l0)
+                    settle(w, rng)
+                elif hist == "dialer-lost-only":
+                    # the dialer has seen the loss, the peer has not yet
+                    w.cut(l0)
+                    w.close_seen(l0, 0)
+                elif hist == "peer-restarted":
+                    w.restart(other(x))
+                    settle(w, rng)
+            seq0 = list(w.tub["M"].master_table.values())
+            seq0 = seq0[0] if seq0 else 0
+            n0 = len(w.results)
+            w.lookup(x, p["hints"])
+            settle(w, rng, chunk)
+            E.clock.advance(0.5)
+            E.turn()
+            settle(w, rng, chunk)
+            seq1 = list(w.tub["M"].master_table.values())
+            seq1 = seq1[0] if seq1 else 0
+            facts.update(seq_before=seq0, seq_after=seq1, results=[r["fired"] for r in w.results[n0:]])
+            bad = agreement_problem(w)
+            if bad:
+                return "agreement", bad, facts
+            if seq1 - seq0 > 1 or w.live_broker_link("M") is None or w.results[n0]["fired"] != ["ok"]:
+                return ("redundant-attempt-displaces-established/%s" % hist,
+                        "%d parallel hints after history %r: the master accepted %d of the parallel offers of one peer incarnation "
+                        "(an established connection was displaced by a redundant attempt); final brokers M=%r S=%r; lookup result %r"
+                        % (p["hints"], hist, seq1 - seq0, w.live_broker_link("M"), w.live_broker_link("S"), w.results[n0]["fired"]),
+                        facts)
+        elif kind == "restart-displaces":
+            # a stale connection (the peer restarted, the loss not yet noticed) must be displaced by the new incarnation
+            x = p["who"]                       # who restarts and then dials
+            y = other(x)
+            w.lookup(p["first_dialer"], 1)
+            settle(w, rng)
+            stale = w.live_broker_link(y)
+            w.restart(x)                       # y has not seen the loss: its broker is stale
+            if w.live_broker_link(y) != stale:
+                return "harness", "restart disturbed the surviving Tub", facts
+            new = w.lookup(x, 1)
+            # deliver everything on the new link only; the stale link's close notification stays pending
+            for i in range(20000):
+                ps = [s for s in w.pending_steps() if w.net.links[s[1]] in new]
+                if not ps:
+                    break
+                w.do_net_step(rng.choice(ps), rng, chunk)
+            by, bx = w.live_broker_link(y), w.live_broker_link(x)
+            facts.update(stale=stale, y=by, x=bx)
+            if by is None or bx is None or by[0] != bx[0] or by[0] == stale[0]:
+                return ("restart-does-not-displace", "after %s restarted and dialled again, the surviving Tub kept its stale connection "
+                        "or refused the new one: %s has %r, %s has %r (stale was %r)" % (x, y, by, x, bx, stale), facts)
+            settle(w, rng)
+            bad = agreement_problem(w) or lookups_problem(w, T)
+            if bad:
+                return "agreement", bad, facts
+            if w.live_broker_link(y) is None:
+                return "restart-does-not-displace", "the new connection did not survive the late close of the stale one", facts
+        elif kind == "blackhole":
+            # nothing is ever delivered: the lookup must fail at CONNECTION_TIMEOUT, not hang, not earlier
+            x = p["who"]
+            w.lookup(x, p["hints"])
+            if p.get("second"):
+                E.clock.advance(30)
+                w.lookup(x, p["hints"])
+            E.clock.advance(T - 31)
+            E.turn()
+            early = [list(r["fired"]) for r in w.results]
+            E.clock.advance(31)
+            E.turn()
+            facts.update(early=early, final=[r["fired"] for r in w.results])
+            if any(early):
+                return "lookup-fired-early", "lookup failed before CONNECTION_TIMEOUT although attempts were pending: %r" % early, facts
+            if any(len(r["fired"]) != 1 for r in w.results):
+                return "lookup", "lookup did not fire exactly once by CONNECTION_TIMEOUT: %r" % [r["fired"] for r in w.results], facts
+            settle(w, rng)
+            bad = agreement_problem(w)
+            if bad:
+                return "agreement", bad, facts
+        else:
+            raise ValueError(kind)
+    finally:
+        w.stop()
+    return None, "", facts
+
+
+def run_case(ctx, kind, seed, p, nontrivial=True):
+    from harness.implenv import quiet
+    try:
+        with quiet():
+            sig, text, facts = scenario(kind, seed, p)
+    except Exception as e:
+        import traceback
+        ctx.fail("oracle/exception-escaped", "an exception escaped from the real Tubs in scenario %s %r: %r" % (kind, p, e),
+                 replay=dict(kind=kind, seed=seed, params=p, tb=traceback.format_exc()))
+        return None
+    ctx.case([kind, seed if kind in ("faults", "crossfire") else 0, p], nontrivial=nontrivial)
+    ctx.hist("oracle_kind", kind)
+    for r in facts.get("results", []) if isinstance(facts.get("results"), list) else []:
+        ctx.hist("lookup_result", r if isinstance(r, str) else "/".join(r))
+    if sig:
+        ctx.fail("oracle/" + sig, "%s [scenario %s %r seed %d]" % (text, kind, p, seed),
+                 replay=dict(kind=kind, seed=seed, params=p, facts=facts))
+    return facts
+
+
+def run_corpus(ctx):
+    d = _os.path.join(_os.path.dirname(_os.path.dirname(_os.path.abspath(__file__))), "corpus", "C14")
+    for path in sorted(_glob.glob(_os.path.join(d, "*.json"))):
+        c = _json.load(open(path))
+        run_case(ctx, c["kind"], c["seed"], c["params"])
+        ctx.hist("corpus", _os.path.basename(path))
+
+
+def run_all(ctx):
+    rng = ctx.rng
+    seed = lambda: rng.randrange(1 << 30)
+    for i in range(ctx.n(120, 4000)):
+        run_case(ctx, "crossfire", seed(), dict(hints=dict(M=rng.randint(1, 3), S=rng.randint(1, 3)), bytes=(i % 3 == 0)))
+    for i in range(ctx.n(150, 5000)):
+        run_case(ctx, "faults", seed(), dict(steps=rng.choice([10, 25, 50, 90]), bytes=(i % 4 == 0)))
+    for who in NAMES:
+        for hist in ("fresh", "both-lost", "dialer-lost-only", "peer-restarted"):
+            for hints in (2, 3):
+                for rep in range(ctx.n(3, 40)):
+                    run_case(ctx, "redundant", seed(), dict(who=who, history=hist, hints=hints))
+    for who in NAMES:
+        for first in NAMES:
+            for rep in range(ctx.n(3, 40)):
+                run_case(ctx, "restart-displaces", seed(), dict(who=who, first_dialer=first, bytes=(rep % 2 == 1)))
+    for who in NAMES:
+        for hints in (1, 3):
+            for second in (False, True):
+                run_case(ctx, "blackhole", 0, dict(who=who, hints=hints, second=second))
+    ctx.sample(dict(kind="crossfire", params=dict(hints=dict(M=2, S=3), bytes=True)))
+    ctx.sample(dict(kind="redundant", params=dict(who="S", history="peer-restarted", hints=2)))
